@@ -1,7 +1,6 @@
 package canvas
 
 import (
-	"fmt"
 	"io"
 	"math"
 	"strconv"
@@ -96,38 +95,60 @@ func vhC11Close8(a, b float64) bool {
 	return math.Abs(a-b) <= 1e-6*(1+math.Abs(b))
 }
 
-func VH_C11_tosvg_Q() {
-	vStub("!fmt.Fprintf", vhC11FprintfRec)
-	p := &Path{}
-	nseg := vChoose(1, 2+vTier())
-	kinds := vhChooseKinds(nseg, []int{vhLine, vhQuad, vhCube, vhArc})
-	vhRawSubpath(p, vhReal, kinds, vChoose(0, 1))
-	vAssume(vhWF(p))
-	// general position for the H/V shorthand decisions: coordinates of consecutive points are
-	// identical or at least 1e-6 apart
-	subs, _ := vhDecode(p.d)
-	gp := true
-	for _, sg := range subs[0].segs {
-		dx, dy := math.Abs(sg.end.X-sg.start.X), math.Abs(sg.end.Y-sg.start.Y)
-		gp = gp && (dx == 0 || dx >= 1e-6) && (dy == 0 || dy >= 1e-6)
-		if sg.cmd == ArcToCmd {
-			// rotation away from the 90 degree switch
-			gp = gp && math.Abs(sg.a[2]-math.Pi/2) >= 1e-6
+// vhC11SVGGroups splits a token list into subpaths according to SVG 2 section 9.3: an M starts a
+// subpath; a drawing command directly after a z starts one at the initial point of the subpath just
+// closed (a synthetic M token is put in front of it).
+func vhC11SVGGroups(toks []vhC11STok) (groups [][]vhC11STok, ok bool) {
+	ok = true
+	var start Point
+	var cur Point
+	afterZ := false
+	for _, t := range toks {
+		if t.cmd == 'M' {
+			if len(t.args) != 2 {
+				return nil, false
+			}
+			groups = append(groups, []vhC11STok{t})
+			start = Point{t.args[0], t.args[1]}
+			cur = start
+			afterZ = false
+			continue
+		}
+		if len(groups) == 0 {
+			return nil, false
+		}
+		if afterZ {
+			groups = append(groups, []vhC11STok{{cmd: 'M', args: []float64{start.X, start.Y}}})
+			afterZ = false
+		}
+		g := len(groups) - 1
+		groups[g] = append(groups[g], t)
+		switch t.cmd {
+		case 'z':
+			afterZ = true
+			cur = start
+		case 'H':
+			if len(t.args) == 1 {
+				cur.X = t.args[0]
+			}
+		case 'V':
+			if len(t.args) == 1 {
+				cur.Y = t.args[0]
+			}
+		default:
+			if len(t.args) >= 2 {
+				cur = Point{t.args[len(t.args)-2], t.args[len(t.args)-1]}
+			}
 		}
 	}
-	vAssume(gp)
-	before := vhCopyData(p.d)
-	vhC11SRec = nil
-	s := p.ToSVG()
-	vAssert("C11.tosvg.receiver_unchanged", vhSameData(p.d, before))
-	toks := vhC11SRec
-	if !vInterp() {
-		toks = vhC11SLex(s)
-	}
-	// interpret the tokens
+	return groups, ok
+}
+
+// vhC11SVGSameSub: the tokens of one subpath describe the subpath sub.
+func vhC11SVGSameSub(toks []vhC11STok, sub vhSub) bool {
 	var cur, start Point
 	k := 0 // index into the input segments (zero-length lines are not printed)
-	segs := subs[0].segs
+	segs := sub.segs
 	good := true
 	for ti, t := range toks {
 		if ti == 0 {
@@ -137,7 +158,7 @@ func VH_C11_tosvg_Q() {
 			}
 			cur = Point{t.args[0], t.args[1]}
 			start = cur
-			good = good && vhC11Close8(cur.X, subs[0].start.X) && vhC11Close8(cur.Y, subs[0].start.Y)
+			good = good && vhC11Close8(cur.X, sub.start.X) && vhC11Close8(cur.Y, sub.start.Y)
 			continue
 		}
 		// skip input lines of zero length (they are legitimately omitted)
@@ -154,13 +175,19 @@ func VH_C11_tosvg_Q() {
 		switch t.cmd {
 		case 'H':
 			good = good && sg.cmd == LineToCmd && len(t.args) == 1
-			end = Point{t.args[0], cur.Y}
+			if good {
+				end = Point{t.args[0], cur.Y}
+			}
 		case 'V':
 			good = good && sg.cmd == LineToCmd && len(t.args) == 1
-			end = Point{cur.X, t.args[0]}
+			if good {
+				end = Point{cur.X, t.args[0]}
+			}
 		case 'L':
 			good = good && sg.cmd == LineToCmd && len(t.args) == 2
-			end = Point{t.args[0], t.args[1]}
+			if good {
+				end = Point{t.args[0], t.args[1]}
+			}
 		case 'Q':
 			good = good && sg.cmd == QuadToCmd && len(t.args) == 4
 			if good {
@@ -199,6 +226,79 @@ func VH_C11_tosvg_Q() {
 	for k < len(segs) && segs[k].cmd == LineToCmd && segs[k].start.Equals(segs[k].end) {
 		k++
 	}
-	vAssert("C11.tosvg.same_geometry", good && k == len(segs))
-	_ = fmt.Sprint
+	return good && k == len(segs)
+}
+
+// vhC11SVGGenPos: general position for the H/V shorthand decisions: coordinates of consecutive
+// points are identical or at least 1e-6 apart.
+func vhC11SVGGenPos(subs []vhSub) bool {
+	gp := true
+	var prev Point
+	for si, sub := range subs {
+		if si > 0 {
+			dx, dy := math.Abs(sub.start.X-prev.X), math.Abs(sub.start.Y-prev.Y)
+			gp = gp && (dx == 0 || dx >= 1e-6) && (dy == 0 || dy >= 1e-6)
+		}
+		prev = sub.start
+		for _, sg := range sub.segs {
+			dx, dy := math.Abs(sg.end.X-sg.start.X), math.Abs(sg.end.Y-sg.start.Y)
+			gp = gp && (dx == 0 || dx >= 1e-6) && (dy == 0 || dy >= 1e-6)
+			if sg.cmd == ArcToCmd {
+				// rotation away from the 90 degree switch
+				gp = gp && math.Abs(sg.a[2]-math.Pi/2) >= 1e-6
+			}
+			prev = sg.end
+		}
+	}
+	return gp
+}
+
+func vhC11SVGCheck(p *Path, id1, id2 string) {
+	subs, _ := vhDecode(p.d)
+	vAssume(vhC11SVGGenPos(subs))
+	before := vhCopyData(p.d)
+	vhC11SRec = nil
+	s := p.ToSVG()
+	vAssert(id1, vhSameData(p.d, before))
+	toks := vhC11SRec
+	if !vInterp() {
+		toks = vhC11SLex(s)
+	}
+	groups, ok := vhC11SVGGroups(toks)
+	good := ok && len(groups) == len(subs)
+	if good {
+		for i := range subs {
+			good = good && vhC11SVGSameSub(groups[i], subs[i])
+		}
+	}
+	vAssert(id2, good)
+}
+
+func VH_C11_tosvg_Q() {
+	vStub("!fmt.Fprintf", vhC11FprintfRec)
+	p := &Path{}
+	nseg := vChoose(1, 2+vTier())
+	kinds := vhChooseKinds(nseg, []int{vhLine, vhQuad, vhCube, vhArc})
+	vhRawSubpath(p, vhReal, kinds, vChoose(0, 1))
+	vAssume(vhWF(p))
+	vhC11SVGCheck(p, "C11.tosvg.receiver_unchanged", "C11.tosvg.same_geometry")
+}
+
+// C11-H3b: several subpaths (lines and one optional curve kind), open and closed, where a
+// subpath may start exactly where the previous one ended or started: the text must keep the
+// subpaths apart.
+func VH_C11_tosvg_multi_Q() {
+	vStub("!fmt.Fprintf", vhC11FprintfRec)
+	p := &Path{}
+	nsub := vChoose(2, 2+vTier())
+	for i := 0; i < nsub; i++ {
+		nseg := vChoose(1, 2)
+		kinds := make([]int, nseg)
+		if vChoose(0, 1) == 1 {
+			kinds[nseg-1] = vhQuad
+		}
+		vhRawSubpath(p, vhReal, kinds, vChoose(0, 1))
+	}
+	vAssume(vhWF(p))
+	vhC11SVGCheck(p, "C11.tosvg.multi.receiver_unchanged", "C11.tosvg.multi.same_geometry")
 }
